@@ -3,6 +3,8 @@ import Infretis.Lemmas.TemplateSubst
 import Infretis.Lemmas.TemplateNow
 import Infretis.Lemmas.TemplateWords
 import Infretis.Lemmas.TemplateReSub
+import Infretis.Lemmas.TemplateRepaired
+import Infretis.Lemmas.TemplateCp2kRepaired
 import Infretis.Lemmas.TemplateCp2k
 import Infretis.Lemmas.TemplateCp2kMany
 import Infretis.Lemmas.TemplateCp2kWitness
@@ -140,7 +142,7 @@ theorem mdp_asIs_edit_idempotent_counterexample :
   ⟨[("c".toList, "3".toList)], "a = 1\nb = 2".toList,
    ⟨by decide, by decide, by decide, by decide, by decide⟩, by decide⟩
 
-/-- PENDING finding C19:mdp:dash-underscore-key (reported, not decided): the editor compares parameter names
+/-- OPEN finding C19:mdp:dash-underscore-key (known_findings.json; `modifyInput` is the `asIs` variant): the editor compares parameter names
     literally.  GROMACS reads `-` and `_` in a parameter name alike (and the engine itself requests `gen_vel` next to
     `ref-t`): on a template that spells the parameter `gen-vel` the requested `gen_vel` is not edited but appended — the
     output defines the parameter twice and the template's entry keeps its old value.  (The edit is idempotent.) -/
@@ -151,6 +153,39 @@ theorem mdp_dash_underscore_counterexample :
       = [("gen-vel".toList, "yes".toList), ("nsteps".toList, "5".toList), ("gen_vel".toList, "no".toList)] ∧
     modifyInput [("gen_vel".toList, "no".toList)] "gen-vel = yes\nnsteps = 5\ngen_vel = no\n".toList
       = "gen-vel = yes\nnsteps = 5\ngen_vel = no\n".toList := by decide
+
+/-- **edit_exact (mdp), the REPAIRED variant** (`modifyInputR`, `Model/TemplateRepaired.lean`: names compared up to
+    `-`/`_`, the template's own text before '=' kept) — the full statement that `mdp_dash_underscore_counterexample`
+    refutes for the code as it is.  For every template and all settings without newlines: the output's lines are the
+    template's lines through `editOutR`, followed (last line completed) by exactly the settings whose NORMALISED name is
+    no keyword of the template, in dict order; and a requested parameter that the template has under EITHER spelling is
+    among the written names (so it is not appended) and its line becomes `keyword= value` with the requested value. -/
+theorem mdp_edit_exact_normalised_repaired (s : Settings) (t : Str)
+    (hk : ∀ kv ∈ s, '\n' ∉ kv.1) (hv : ∀ kv ∈ s, '\n' ∉ kv.2) :
+    (linesKeep (modifyInputR s t) =
+      match appendedR s (writtenKeysR (linesKeep t)) with
+      | [] => (linesKeep t).map (editOutR s)
+      | a :: r => closeLast ((linesKeep t).map (editOutR s)) ++ a :: r) ∧
+    appendedR s (writtenKeysR (linesKeep t)) =
+      (s.filter (fun kv => decide (normKey kv.1 ∉ writtenKeysR (linesKeep t)))).map (fun kv => newLine kv.1 kv.2) ∧
+    (∀ l ∈ linesKeep t, ∀ kw, matchKey l = some kw → ∀ kv ∈ s, normKey kv.1 = normKey (strip kw) →
+      normKey kv.1 ∈ writtenKeysR (linesKeep t) ∧ ∃ v, lookupN s (strip kw) = some v ∧ editOutR s l = setLine kw v) := by
+  refine ⟨by rw [modifyInputR_lines s t hk hv]; rfl, appendedR_exact s _, ?_⟩
+  intro l hl kw hm kv hkv hn
+  refine ⟨by rw [hn]; exact writtenKeysR_of_line hl hm, ?_⟩
+  have hs := lookupN_isSome_of_mem kv hkv hn
+  cases hv' : lookupN s (strip kw) with
+  | none => simp [hv'] at hs
+  | some v => exact ⟨v, rfl, editOutR_requested s l kw v hm hv'⟩
+
+/-- the repaired variant on the witness of the finding: the template's `gen-vel` line gets the value, nothing is appended;
+    on templates that spell the names as requested the two variants coincide -/
+example :
+    modifyInputR [("gen_vel".toList, "no".toList), ("nsteps".toList, "7".toList)] "gen-vel = yes\nnsteps = 5\n".toList
+      = "gen-vel = no\nnsteps = 7\n".toList ∧
+    modifyInputR [("gen_vel".toList, "no".toList)] "gen_vel = yes\nref-t = 1\n".toList
+      = modifyInput [("gen_vel".toList, "no".toList)] "gen_vel = yes\nref-t = 1\n".toList ∧
+    modifyInputR [("c".toList, "3".toList)] "a = 1\nb = 2".toList = "a = 1\nb = 2\nc = 3\n".toList := by decide
 
 /-! ## 2. LAMMPS `write_for_run`
 
@@ -742,7 +777,7 @@ theorem cp2k_idempotent_ascii_guard_counterexample :
   have := h.tok ("A\u00a0B".toList, some "1".toList) (by simp)
   exact absurd (this.2 '\u00a0' (by decide)) (by decide)
 
-/-- PENDING finding C19:cp2k:keyword-case (reported, not decided): `update_node` compares keywords literally
+/-- OPEN finding C19:cp2k:wfrvel:keyword-case (known_findings.json; `updateNode` is the `asIs` variant): `update_node` compares keywords literally
     (`line.split()[0] in data`), CP2K reads keywords case-insensitively (and the reader itself upper-cases section
     names).  On a template that spells the keyword `steps` the requested `STEPS 21` is not written over the entry but
     appended: the section then holds `steps 3` AND `STEPS 21`.  (The edit is idempotent.) -/
@@ -754,6 +789,38 @@ theorem cp2k_keyword_case_counterexample :
         [⟨"MOTION->MD".toList, none, false, [("STEPS".toList, some "21".toList)], false⟩] [] =
       .ok "&MOTION\n  &MD\n    steps 3\n    STEPS 21\n  &END MD\n&END MOTION\n".toList := by
   constructor <;> decide +kernel
+
+/-- **edit_exact (CP2K), the REPAIRED variant** (`mergeDataR`, `Model/TemplateCp2kRepaired.lean`: keywords compared up
+    to case, the rewritten line carries the requested spelling) — the full statement that
+    `cp2k_keyword_case_counterexample` refutes for the code as it is.  For dict data whose keywords are distinct up to
+    case and single words, and a section every line of which has a first word: the new data are the old lines through
+    `editLineR` followed by the requested entries no line named, in dict order; every requested line is in the section;
+    and EVERY line of the section whose first word is a requested keyword in any case IS the requested line. -/
+theorem cp2k_edit_exact_keyword_case_repaired (u : Upd) (old nd : List Str) (hl : u.isList = false)
+    (htok : ∀ l ∈ old, (firstTok l).isSome = true) (hk : KeysCI u.data) (h : mergeDataR u old = .ok nd) :
+    nd = old.map (editLineR u.data) ++ (u.data.filter (fun kv => decide (kv.1 ∉ doneR u.data old))).map fmtEntry ∧
+    ∀ kv ∈ u.data, fmtEntry kv ∈ nd ∧
+      ∀ l ∈ nd, ∀ key, firstTok l = some key → upper key = upper kv.1 → l = fmtEntry kv := by
+  refine ⟨?_, repaired_requested_entry u old nd hl htok hk h⟩
+  rw [mergeDataR_eq u old hl htok] at h
+  exact (Except.ok.inj h).symm
+
+/-- non-vacuity: the `MOTION->MD` entry of `write_for_run_vel` satisfies `KeysCI`; and the repaired variant on the
+    witness of the finding — `steps 3` becomes `STEPS 21`, nothing is appended, a second application changes nothing;
+    on a template that spells the keyword as requested the two variants coincide -/
+example : KeysCI [("STEPS".toList, some "21".toList), ("TIMESTEP".toList, some "0.5".toList)] :=
+  ⟨by decide, by intro kv hkv; simp only [List.mem_cons, List.not_mem_nil, or_false] at hkv
+                 rcases hkv with rfl | rfl <;> exact ⟨by decide, by decide⟩⟩
+
+theorem cp2k_keyword_case_repaired_witness :
+    updateInputR "&MOTION\n  &MD\n    steps 3\n  &END MD\n&END MOTION\n".toList
+        [⟨"MOTION->MD".toList, none, false, [("STEPS".toList, some "21".toList)], false⟩] [] =
+      .ok "&MOTION\n  &MD\n    STEPS 21\n  &END MD\n&END MOTION\n".toList ∧
+    updateInputR "&MOTION\n  &MD\n    STEPS 21\n  &END MD\n&END MOTION\n".toList
+        [⟨"MOTION->MD".toList, none, false, [("STEPS".toList, some "21".toList)], false⟩] [] =
+      .ok "&MOTION\n  &MD\n    STEPS 21\n  &END MD\n&END MOTION\n".toList ∧
+    updateInputR tplMD [updMerge] [] = updateInput tplMD [updMerge] [] := by
+  refine ⟨by decide +kernel, by decide +kernel, by decide +kernel⟩
 
 /-! ### the whole update loop of `update_cp2k_input`, and `write_for_run_vel`
 
